@@ -8,6 +8,8 @@ NOTE_ORD = ("Theorem is about the hand-written Gallina model for any number type
 CHECKS = {
     "C11": {"text": "Coq theorem over Q for all matrices, bounds, strategies and draw streams (coordinatewise contract of the four repairs, two-pass order modelled as written) + bit-exact correspondence of the binary64 instance with dem.py on generated and scripted-draw cases",
             "note": NOTE_Q, "technique": "Coq proof (induction over the flattened matrix, lra/nra) + vm_compute correspondence"},
+    "C12": {"text": "Coq theorems for every number type, crossover kind, CR, shape and draw stream: coordinatewise inheritance, at least one mutant coordinate, CR=1 => trial = mutant, CR=0 => exactly one coordinate, exponential mask = circular block whose length is the number of leading draws below CR; + bit-exact correspondence of DEX.do / cross_binomial / cross_exp with recorded and boundary-scripted draws",
+            "note": NOTE_ORD, "technique": "Coq proof (induction over draw stream and rows; mod arithmetic) + vm_compute correspondence"},
 }
 
 _PENDING = "check not built yet in this session (work in progress, see DESIGN.md section 7)"
